@@ -37,6 +37,12 @@ func Sqrt(g *G, n int) []Program {
 			g.LoadInt("r0", false, x, 2*(e/2), 0, g.Mode())
 		case k < 68: // specials
 			g.loadClass("r0", g.PickS("+0", "-0", "+inf", "-inf", "-fin"), 0)
+		case k < 80: // x has just a few more digits than the receiver: an intermediate rounding to x's precision would show
+			d := g.Digits(p + 1 + g.R.Intn(3))
+			if d[len(d)-1] == '0' {
+				d = d[:len(d)-1] + "7"
+			}
+			g.Load("r0", false, d, e, 0, g.Mode())
 		default:
 			d := strings.TrimRight(g.Digits(g.Len()), "0")
 			if d == "" {
